@@ -17,6 +17,65 @@ def argStore (c : Ctx) (s : CallSt) (t : Nat) (v : Vtx) : CallSt :=
   | some x => if c.env.assignable x.ty t then s.set v (some x) else s
   | none => s
 
+/-- the write a value vertex makes on being entered: the copy from a preceding out vertex, or (repair of
+F22, `c.hopCopies`) the value held by a preceding named-value vertex -/
+def valCopy (c : Ctx) (s : CallSt) (prev : Option Vtx) (v : Vtx) : CallSt :=
+  match prev with
+  | some (.out t st) => s.set v (s.get (.out t st))
+  | some (.value n t st) =>
+    match (if c.hopCopies then s.get (.value n t st) else none) with
+    | some x => s.set v (some x)
+    | none => s
+  | _ => s
+
+theorem valCopy_none (c : Ctx) (s : CallSt) (v : Vtx) : valCopy c s none v = s := rfl
+
+theorem valCopy_out (c : Ctx) (s : CallSt) (t : Nat) (st : String) (v : Vtx) :
+    valCopy c s (some (.out t st)) v = copyFrom s (some (.out t st)) v := rfl
+
+/-- entered from anything but a named-value vertex, a value vertex behaves as before the repair -/
+theorem valCopy_eq_copyFrom (c : Ctx) (s : CallSt) (prev : Option Vtx) (v : Vtx)
+    (h : ∀ n t st, prev ≠ some (.value n t st)) : valCopy c s prev v = copyFrom s prev v := by
+  cases prev with
+  | none => rfl
+  | some p => cases p <;> first | rfl | exact absurd rfl (h _ _ _)
+
+/-- without the repair a value vertex behaves as before -/
+theorem valCopy_noHop (c : Ctx) (s : CallSt) (prev : Option Vtx) (v : Vtx) (hc : c.hopCopies = false) :
+    valCopy c s prev v = copyFrom s prev v := by
+  cases prev with
+  | none => rfl
+  | some p => cases p <;> first | rfl | (unfold valCopy copyFrom; simp [hc])
+
+theorem valCopy_hop_some (c : Ctx) (s : CallSt) (n : String) (t : Nat) (st : String) (v : Vtx) {x : PVal}
+    (hc : c.hopCopies = true) (hg : s.get (.value n t st) = some x) :
+    valCopy c s (some (.value n t st)) v = s.set v (some x) := by
+  unfold valCopy; simp [hc, hg]
+
+theorem valCopy_hop_none (c : Ctx) (s : CallSt) (n : String) (t : Nat) (st : String) (v : Vtx)
+    (hg : c.hopCopies = false ∨ s.get (.value n t st) = none) :
+    valCopy c s (some (.value n t st)) v = s := by
+  unfold valCopy
+  rcases hg with hg | hg <;> simp [hg]
+
+/-- the two shapes of `valCopy`: the pre-repair copy, or the hop write of the previous named vertex's value -/
+theorem valCopy_cases (c : Ctx) (s : CallSt) (prev : Option Vtx) (v : Vtx) :
+    valCopy c s prev v = copyFrom s prev v ∨
+    ∃ n t st x, prev = some (.value n t st) ∧ c.hopCopies = true ∧ s.get (.value n t st) = some x ∧
+      valCopy c s prev v = s.set v (some x) := by
+  cases prev with
+  | none => exact .inl rfl
+  | some p =>
+    cases p with
+    | value n t st =>
+      cases hc : c.hopCopies with
+      | false => exact .inl (valCopy_noHop c s _ v hc)
+      | true =>
+        cases hg : s.get (.value n t st) with
+        | none => exact .inl (valCopy_hop_none c s n t st v (.inr hg))
+        | some x => exact .inr ⟨n, t, st, x, rfl, rfl, hg, valCopy_hop_some c s n t st v hc hg⟩
+    | _ => exact .inl rfl
+
 variable (c : Ctx) (rec : Vtx → CallSt → Except RErr ArgMap × CallSt)
 
 theorem walkStep_err {w : WalkSt} {e : RErr} (h : w.err = some e) (v : Vtx) : walkStep c rec w v = w := by
@@ -29,20 +88,28 @@ theorem walkStep_root {w : WalkSt} (h : w.err = none) :
 theorem walkStep_value {w : WalkSt} (h : w.err = none) (n : String) (t : Nat) (u : String) :
     walkStep c rec w (.value n t u) =
       { w with
-        s := { copyFrom w.s w.prev (.value n t u) with
-               last := if c.publishAfterUpdate then (copyFrom w.s w.prev (.value n t u)).get (.value n t u)
+        s := { valCopy c w.s w.prev (.value n t u) with
+               last := if c.publishAfterUpdate then (valCopy c w.s w.prev (.value n t u)).get (.value n t u)
                        else w.s.get (.value n t u) },
         prev := some (.value n t u),
-        final := ((copyFrom w.s w.prev (.value n t u)).get (.value n t u)).or w.final } := by
+        final := ((valCopy c w.s w.prev (.value n t u)).get (.value n t u)).or w.final } := by
   unfold walkStep; rw [h]
-  unfold copyFrom
+  unfold valCopy
   cases hp : w.prev with
   | none => dsimp only [CallSt.get]; cases mapGet w.s.store (Vtx.value n t u) <;> rfl
   | some p =>
-    cases p <;> dsimp only [CallSt.get] <;>
-      first
-        | (cases mapGet w.s.store (Vtx.value n t u) <;> rfl)
-        | (cases mapGet (w.s.set (Vtx.value n t u) (mapGet w.s.store (Vtx.out _ _))).store (Vtx.value n t u) <;> rfl)
+    cases p with
+    | value n' t' u' =>
+      dsimp only
+      cases hh : (if c.hopCopies = true then w.s.get (Vtx.value n' t' u') else none) with
+      | none => dsimp only [CallSt.get]; cases mapGet w.s.store (Vtx.value n t u) <;> rfl
+      | some x =>
+        dsimp only [CallSt.get]
+        cases mapGet (w.s.set (Vtx.value n t u) (some x)).store (Vtx.value n t u) <;> rfl
+    | out t' u' =>
+      dsimp only [CallSt.get]
+      cases mapGet (w.s.set (Vtx.value n t u) (mapGet w.s.store (Vtx.out t' u'))).store (Vtx.value n t u) <;> rfl
+    | _ => dsimp only [CallSt.get]; cases mapGet w.s.store (Vtx.value n t u) <;> rfl
 
 theorem walkStep_arg {w : WalkSt} (h : w.err = none) (t : Nat) (u : String) :
     walkStep c rec w (.arg t u) =
